@@ -122,6 +122,68 @@ def program(rng, natives=True):
     return "\n".join(L) + "\n", mods
 
 
+def finally_trace_program(rng):
+    """reports of errors that travelled through finally blocks: recursive and mutually recursive functions whose frames
+    all run the same code, with try/finally at every or every other level; and several fibers running one worker
+    function, each failing on a different line inside try/finally, suspended by a yield in the finally block while the
+    exception is pending, and resumed in a chosen order"""
+    r = rng
+    L = PRELUDE.strip("\n").split("\n")
+    for _ in range(r.range(0, 3)):
+        L.append(r.choice(["// pad", "", "print(\"pad\");"]))
+    fail = r.choice(["throw \"bottom\";", "nil + 1;", "[1][5];", "throw MyErr.new(\"custom\");", "undefined_name;", "[].pop();", "throw [1, 2];"])
+    if r.chance(55):
+        shape = r.choice(["self", "self", "mutual", "method", "alternate"])
+        depth = r.range(1, 5)
+        call = "dive(n - 1);" if r.chance(60) else "var got = dive(n - 1);"
+        if shape == "self":
+            L += ["fn dive(n) {", "    if n == 0 {", "        " + fail, "    }", "    try {", "        " + call, "    } finally {",
+                  "        print(\"leaving ${n}\");", "    }", "    return n;", "}"]
+            start = "dive(%d)" % depth
+        elif shape == "alternate":
+            L += ["fn dive(n) {", "    if n == 0 {", "        " + fail, "    }", "    if n % 2 == 0 {", "        try {", "            " + call,
+                  "        } finally {", "            print(\"leaving ${n}\");", "        }", "    } else {", "        " + call, "    }", "    return n;", "}"]
+            start = "dive(%d)" % depth
+        elif shape == "mutual":
+            L += ["fn ping(n) {", "    if n == 0 {", "        " + fail, "    }", "    try {", "        pong(n - 1);", "    } finally {",
+                  "        print(\"ping ${n}\");", "    }", "    return n;", "}",
+                  "fn pong(n) {", "    if n == 0 {", "        " + fail, "    }", "    var r = ping(n - 1);", "    return r;", "}"]
+            start = "ping(%d)" % depth
+        else:
+            L += ["#[constructor(new)]", "class Diver {", "    fn dive(self, n) {", "        if n == 0 {", "            " + fail, "        }",
+                  "        try {", "            self.dive(n - 1);", "        } finally {", "            print(\"leaving ${n}\");", "        }",
+                  "        return n;", "    }", "}"]
+            start = "Diver.new().dive(%d)" % depth
+        where = r.below(4)
+        if where == 0:
+            L.append("%s;" % start)
+        elif where == 1:
+            L += ["fn outer() {", "    var x = 1;", "    return %s;" % start, "}", "print(outer());"]
+        elif where == 2:
+            L += ["var fbr = Fiber.new(|| {", "    return %s;" % start, "});", "print(fbr.call());"]
+        else:
+            L += ["try {", "    %s;" % start, "} catch e {", "    print(type(e));", "}", "print(\"after\");", fail]
+        L.append("print(\"not reached\");")
+        return "\n".join(L) + "\n", []
+    n = r.range(2, 3)
+    tags = ["t%d" % i for i in range(n)]
+    fails = [r.choice(["throw \"boom %d\";" % i, "nil + %d;" % i, "[1][%d];" % (i + 5), "throw MyErr.new(\"m%d\");" % i]) for i in range(n)]
+    L += ["fn worker(tag) {", "    var local = tag;", "    try {"]
+    for i, t in enumerate(tags):
+        L += ["        if tag == \"%s\" {" % t, "            " + fails[i], "        }"]
+    L += ["        print(\"no failure\");", "    } finally {", "        Fiber.yield(tag);", "        print(\"finally of ${local} resumes\");", "    }", "    return tag;", "}"]
+    for i, t in enumerate(tags):
+        if r.chance(50):
+            L.append("var fb%d = Fiber.new(|| worker(\"%s\"));" % (i, t))
+        else:
+            L += ["var fb%d = Fiber.new(|| {" % i, "    var r = worker(\"%s\");" % t, "    return r;", "});"]
+    for i in r.shuffle(list(range(n))):
+        L.append("print(fb%d.call());" % i)
+    L.append("fb%d.call();" % r.below(n))
+    L.append("print(\"not reached\");")
+    return "\n".join(L) + "\n", []
+
+
 BAD_TOKENS = [")", "}", "]", ";", "= ;", "var ;", "@", "class {", "fn (", "+ ;", ". ;", "1 = 2;", "break;", "return 1;", "super.x;",
               "self;", "#[x] var y;", "else {}", "catch e {}", "import;", "var v = \"bad \\q\";", "|a b| 1;", "{ var a = a; }"]
 
